@@ -28,6 +28,7 @@ import jax.numpy as jnp
 
 import fedjax
 from fedjax.algorithms import agnostic_fed_avg
+from fedjax.core import client_datasets as client_datasets_lib
 from fedjax.algorithms import hyp_cluster
 from fedjax.algorithms import mime
 from fedjax.algorithms import mime_lite
@@ -64,6 +65,10 @@ ASSUMPTIONS = [
     'per-example losses are rng-independent (an rng-dependent loss is '
     'legitimately geometry-dependent: the key is split once per batch) and '
     'finite on every row, including all-zero and garbage padding rows',
+    'a quarter of the dataset-level cases attach a per-example batch preprocessor '
+    'to every client dataset that is the identity on real examples and not finite '
+    'on an all-zero row (padding is added after preprocessing, so it never meets '
+    'one); the reference values are unchanged',
     'padding rows are masked out by the example mask only; they hold zeros (what '
     'padded_batch produces) or finite garbage with valid labels / domain ids',
     'float32 implementation vs float64 closed-form reference: |got - want| <= '
@@ -357,6 +362,42 @@ def arrays(fam, rows, with_dom=False):
   return out
 
 
+_PREP = [False]
+
+
+def _flag_prep(ex):
+  """A per-example batch preprocessor that is the identity on every real example
+  (whose feature 'one' is 1: log 1 = 0) but is not finite on an all-zero row
+  (0 * log 0 = NaN) -- like a row normalisation or a log / ratio feature.
+  Padding is documented to be added AFTER preprocessing, so no preprocessor
+  ever sees a padding row."""
+  with np.errstate(divide='ignore', invalid='ignore'):
+    bump = (0.0 * np.log(ex['one'])).astype(np.float32)
+  return {**ex, 'x': ex['x'] + bump[:, None]}
+
+
+PREP = client_datasets_lib.BatchPreprocessor([_flag_prep])
+
+
+def client_dataset(fam, rows, with_dom=False):
+  a = arrays(fam, rows, with_dom)
+  if _PREP[0]:
+    a['one'] = np.ones((len(rows),), np.float32)
+    return fedjax.ClientDataset(a, PREP)
+  return fedjax.ClientDataset(a)
+
+
+def with_prep_flag(run):
+  def wrapped(case):
+    _PREP[0] = bool(case.get('prep'))
+    try:
+      return run(case)
+    finally:
+      _PREP[0] = False
+  wrapped.__name__ = run.__name__
+  return wrapped
+
+
 def laid_batch(fam, rows, entries, garbage, with_dom, num_domains, salt=0):
   """One hand-laid batch: entries are row indices, -1 marks a padding row."""
   width = 4 if with_dom else 3
@@ -378,7 +419,7 @@ def make_batches(fam, rows, geom, ci=0, with_dom=False, num_domains=1):
   if geom['kind'] == 'layout':
     return [laid_batch(fam, rows, entries, geom['garbage'], with_dom, num_domains, bi)
             for bi, entries in enumerate(geom['batches'][ci])]
-  ds = fedjax.ClientDataset(arrays(fam, rows, with_dom))
+  ds = client_dataset(fam, rows, with_dom)
   if geom['kind'] == 'plain':
     return list(ds.batch(batch_size=geom['b']))
   batches = list(ds.padded_batch(batch_size=geom['b'], num_batch_size_buckets=geom['k']))
@@ -508,6 +549,8 @@ def dataset_labels(case):
   ls = ['site:' + case['site'], 'family:' + case['family'], 'reg:' + case['reg'],
         'clients=%d' % len(case['clients'])]
   sizes = [len(c) for c in case['clients']]
+  if case.get('prep'):
+    ls.append('preprocessor_not_finite_on_zero_rows')
   if 0 in sizes:
     ls.append('client_without_examples')
   if sum(sizes) == 0:
@@ -604,7 +647,7 @@ def run_cluster_losses(case):
   extra = []
   for gi, geom in enumerate(geoms_of(case)):
     hp = fedjax.PaddedBatchHParams(batch_size=geom['b'], num_batch_size_buckets=geom['k'])
-    clients = [(client_id(ci), fedjax.ClientDataset(arrays(fam, case['clients'][ci])),
+    clients = [(client_id(ci), client_dataset(fam, case['clients'][ci]),
                 key(case, ci)) for ci in range(nc)]
     cluster_params = [params_tree(fam, p) for p in case['params']]
     out = hyp_cluster._cluster_losses(  # pylint: disable=protected-access
@@ -685,7 +728,7 @@ def run_mime_grads(case):
     else:
       alg = mime_algorithm(site, fam, reg, geom['b'], geom['k'])
       state = alg.init(params_tree(fam, ints))
-      clients = [(client_id(ci), fedjax.ClientDataset(arrays(fam, case['clients'][ci])),
+      clients = [(client_id(ci), client_dataset(fam, case['clients'][ci]),
                   key(case, ci)) for ci in range(nc)]
       new_state, _ = alg.apply(state, clients)
       what = f'{site}[{fam},{reg}] sizes {sizes} {gname(gi, geom)}'
@@ -764,7 +807,7 @@ def run_domain_metrics(case):
       alg = agnostic_algorithm(fam, nd, geom['b'], geom['k'], reg)
       state = alg.init(params_tree(fam, ints))
       clients = [(client_id(ci),
-                  fedjax.ClientDataset(arrays(fam, case['clients'][ci], with_dom=True)),
+                  client_dataset(fam, case['clients'][ci], with_dom=True),
                   key(case, ci)) for ci in range(nc)]
       new_state, _ = alg.apply(state, clients)
       what = f'{site}[{fam},{reg},D={nd}] sizes {sizes} {gname(gi, geom)}'
@@ -933,7 +976,8 @@ def average_loss_case(draw, tier):
           'params': [draw(params_strategy(fam)) for _ in range(nparams)],
           'clients': clients,
           'geoms': draw(geoms_strategy(tier, sizes, ['padded', 'padded+', 'layout', 'layout', 'plain'])),
-          'seed': draw(st.integers(0, 2**31 - 8))}
+          'seed': draw(st.integers(0, 2**31 - 8)),
+          'prep': draw(st.integers(0, 3)) == 0}
 
 
 @st.composite
@@ -945,7 +989,8 @@ def cluster_case(draw, tier):
           'reg': draw(st.sampled_from(REGS_OPAQUE)),
           'params': [draw(params_strategy(fam)) for _ in range(draw(st.integers(2, 3)))],
           'clients': clients, 'geoms': draw(geoms_strategy(tier, sizes, ['padded'])),
-          'seed': draw(st.integers(0, 2**31 - 8))}
+          'seed': draw(st.integers(0, 2**31 - 8)),
+          'prep': draw(st.integers(0, 3)) == 0}
 
 
 @st.composite
@@ -961,7 +1006,8 @@ def mime_case(draw, tier):
   return {'site': site, 'family': fam, 'reg': draw(st.sampled_from(REGS_OPAQUE)),
           'params': draw(params_strategy(fam)), 'clients': clients,
           'geoms': geoms if direct else geoms[:2],
-          'seed': draw(st.integers(0, 2**31 - 8))}
+          'seed': draw(st.integers(0, 2**31 - 8)),
+          'prep': draw(st.integers(0, 3)) == 0}
 
 
 @st.composite
@@ -983,7 +1029,8 @@ def domain_case(draw, tier):
           'alpha': draw(st.lists(st.integers(0, 16), min_size=nd, max_size=nd)),
           'params': draw(params_strategy(fam)), 'clients': clients,
           'geoms': geoms if direct else geoms[:2],
-          'seed': draw(st.integers(0, 2**31 - 8))}
+          'seed': draw(st.integers(0, 2**31 - 8)),
+          'prep': draw(st.integers(0, 3)) == 0}
 
 
 CHECKS = [
@@ -993,23 +1040,23 @@ CHECKS = [
           doc='fedjax.grad / model_grad on a padded batch (arbitrary mask, incl. '
               'all-False) == on the real rows without mask == float64 closed-form '
               'gradient of mean(loss)+regularizer; finite'),
-    Check(name='average_loss', run=run_average_loss, strategy=average_loss_case,
+    Check(name='average_loss', run=with_prep_flag(run_average_loss), strategy=average_loss_case,
           labels=dataset_labels, nontrivial=dataset_nontrivial,
           budget={'quick': 256, 'thorough': 8000}, time_share=2.5,
           doc='evaluate_average_loss and AverageLossEvaluator (global / per-client '
               'params): every geometry == float64 mean loss + regularizer once == '
               'baseline geometry; no example => regularizer only'),
-    Check(name='cluster_losses', run=run_cluster_losses, strategy=cluster_case,
+    Check(name='cluster_losses', run=with_prep_flag(run_cluster_losses), strategy=cluster_case,
           labels=dataset_labels, nontrivial=dataset_nontrivial,
           budget={'quick': 96, 'thorough': 2500}, time_share=1.2,
           doc='HypCluster per-(client, cluster) average losses and the '
               'maximization_step assignment for every (batch_size, buckets)'),
-    Check(name='mime_grads', run=run_mime_grads, strategy=mime_case,
+    Check(name='mime_grads', run=with_prep_flag(run_mime_grads), strategy=mime_case,
           labels=dataset_labels, nontrivial=dataset_nontrivial,
           budget={'quick': 192, 'thorough': 6000}, time_share=3.5,
           doc='Mime gradient pass: per-client (sum of grad*num, num) and the '
               'full-batch server gradient of mime / mime_lite for every geometry'),
-    Check(name='domain_metrics', run=run_domain_metrics, strategy=domain_case,
+    Check(name='domain_metrics', run=with_prep_flag(run_domain_metrics), strategy=domain_case,
           labels=domain_labels, nontrivial=dataset_nontrivial,
           budget={'quick': 192, 'thorough': 6000}, time_share=2.5,
           doc='agnostic FedAvg per-domain loss sums / counts / beta per client and '
